@@ -428,16 +428,23 @@ def extension_rules(rep, prog):
               "the orientation store does not use real node names on both axes / points away from the sink")
 
 
-def run(prog, rep, tier):
-    pattern_entries(prog, rep, [(U + "dag_to_cpdag", "G"), (U + "order_edges", "G"), (U + "pdag_to_dag", "P"), (U + "pdag_to_cpdag", "pdag")],
-                    allow_raw=("pdag_to_dag",))        # the extension keeps the weights of the directed edges; every *decision* must read the pattern only
+def cpdag_core(rep, prog):
+    """the construction dag_to_cpdag = assemble(label_edges(order_edges(G))), role by role - what mec / imec / dag_to_icpdag rest on"""
     marker, written, fl = label_rules(rep, prog)
     com, rev = assemble_rules(rep, prog, marker, written, fl)
     if com is not None and marker is not None:
         step_rules(rep, prog, marker, com, rev)
     order_rules(rep, prog)
-    extension_rules(rep, prog)
     ordering_typing(rep, prog, [U + "order_edges"])
+
+
+def run(prog, rep, tier):
+    node_label_truthiness(rep, prog, [U + n_ for n_ in ['pdag_to_dag', 'pdag_to_cpdag', 'dag_to_cpdag', 'order_edges', 'label_edges']])
+    isin_over_sets(rep, prog, [U + n_ for n_ in ['pdag_to_dag', 'pdag_to_cpdag', 'dag_to_cpdag', 'order_edges', 'label_edges']])
+    pattern_entries(prog, rep, [(U + "dag_to_cpdag", "G"), (U + "order_edges", "G"), (U + "pdag_to_dag", "P"), (U + "pdag_to_cpdag", "pdag")],
+                    allow_raw=("pdag_to_dag",))        # the extension keeps the weights of the directed edges; every *decision* must read the pattern only
+    cpdag_core(rep, prog)
+    extension_rules(rep, prog)
     dag_gate(rep, prog, U + "order_edges", "G", rule="GATE")
     rep.require_count("LABELS", 4)
     rep.require_count("PAT.entry", 4)
